@@ -364,15 +364,18 @@ UNITS = {
         "specs": ["contracts/spec/config.rs", "contracts/spec/settings_tbl.rs", "contracts/spec/settings.rs"],
         "world": ["rws_env_var", "rws_env_set_var", "set_default_values", "bootstrap", "read_system_environment_variables",
                   "override_environment_variables_from_config", "override_environment_variables_from_command_line_args", "read_config_file",
-                  "CommandLineArgument::_parse", "CommandLineArgument::set_environment_variable", "get_ip_port_thread_count", "get_request_allocation_size"],
+                  "CommandLineArgument::_parse", "CommandLineArgument::set_environment_variable", "get_ip_port_thread_count", "get_request_allocation_size",
+                  "Server::setup"],
         "sources": [
             SYMBOL_SRC,
-            ("src/entry_point/mod.rs", ["struct:Config", "consts:Config", "fn:bootstrap", "fn:set_default_values"]),
+            ("src/entry_point/mod.rs", ["struct:Config", "consts:Config", "fn:bootstrap", "fn:set_default_values", "fn:get_ip_port_thread_count", "fn:get_request_allocation_size"]),
             ("src/entry_point/environment_variables/mod.rs", ["fn:read_system_environment_variables"]),
             ("src/entry_point/command_line_args/mod.rs", ["struct:CommandLineArgument", "fn:override_environment_variables_from_command_line_args",
                                                           "fn:CommandLineArgument::get_command_line_arg_list", "fn:CommandLineArgument::_parse",
                                                           "fn:CommandLineArgument::set_environment_variable"]),
             ("src/entry_point/config_file/mod.rs", ["fn:read_config_file", "fn:strip_comment", "fn:strip_whitespaces", "fn:override_environment_variables_from_config"]),
+            ("src/log/mod.rs", ["struct:Log", "fn:Log::info:assume", "fn:Log::usage_information:assume", "fn:Log::server_url_thread_count:assume"]),
+            ("src/server/mod.rs", ["struct:Server", "fn:Server::setup"]),
         ],
         "contracts": ["contracts/settings.vc"],
     },
